@@ -21,6 +21,7 @@ import (
 	"time"
 
 	"github.com/transparency-dev/witness/monitoring"
+	mprom "github.com/transparency-dev/witness/monitoring/prometheus"
 	"k8s.io/klog/v2"
 )
 
@@ -110,7 +111,7 @@ func TestMain(m *testing.M) {
 	_ = fs.Set("alsologtostderr", "false")
 	_ = fs.Set("stderrthreshold", "FATAL")
 	klog.SetOutput(io.Discard)
-	monitoring.SetMetricFactory(recorder)
+	monitoring.SetMetricFactory(bothFactory{recorder, mprom.MetricFactory{Prefix: "verifsim_"}})
 	loadKnown()
 	if mode := os.Getenv("VERIF_CHILD"); mode != "" {
 		if f := childModes[mode]; f != nil {
